@@ -154,6 +154,10 @@ func init() {
 					sb.WriteString(pickS(r, []string{"---\n", "--- # sep comment\n", "---\n---\n", "---  \n"}))
 				}
 				sb.WriteString(s)
+				if r.Intn(6) == 0 {
+					// a document that is an EMPTY MAPPING is a document (unlike the nothing between two separators)
+					sb.WriteString("---\n" + pickS(r, []string{"{}\n", "{} # intentionally empty\n", "# head of the empty one\n{}\n"}))
+				}
 			}
 			if r.Intn(4) == 0 {
 				// the last document ends in a block scalar, and the stream may lack its final line break
